@@ -3,9 +3,11 @@
 //! Space: programs (one document-building recipe per combination of feature levels: fonts,
 //! images, patterns/shadings/graphics states, annotations, form fields, navigation) × the 8
 //! unencrypted writer configurations (xref table|stream × object streams off|on × stream
-//! compression on|off). Programs × configurations are enumerated exhaustively.
+//! compression on|off). Programs × configurations are enumerated exhaustively (quick: 32
+//! programs, thorough: 240).
 //! Every cell is serialized 4× in this process (document A twice, then freshly built documents
-//! B and C once each) and once in each of 2 fresh processes (`vcheck --worker C20 …`).
+//! B and C once each) and once in each of 2 fresh processes (`vcheck --worker C20 …`);
+//! thorough: 6× in-process (4 fresh builds) and 3 fresh processes.
 //! The clock is held fixed through the public API: `set_creation_date`/`set_modification_date`
 //! and `PdfWriter::write_document` (the `Document::to_bytes*`/`save*` wrappers overwrite the
 //! modification date with the wall clock; they are covered by the `unpinned-clock` section,
@@ -13,8 +15,10 @@
 //! Oracle: byte identity. A difference is localised (first differing offset, enclosing
 //! object) and classified by exact signature for the finding key.
 //! Not enumerated (stated limit): `HashMap` iteration order. It is covered by repetition
-//! across fresh maps (3 builds), threads and 2 fresh processes — an order-dependent emission
-//! over k ≥ 2 entries escapes all 5 independent orders of one cell with probability ≤ k!⁻⁴.
+//! across fresh maps (fresh builds, run in whatever explorer thread picks the cell up) and
+//! fresh processes — an order-dependent emission over k ≥ 2 entries escapes the 4 independent
+//! re-orderings of one quick cell with probability ≤ k!⁻⁴, and the verdict per finding key is
+//! the OR over all cells that contain the feature.
 use oxidize_pdf::annotations::{
     Icon, LinkAnnotation, MarkupAnnotation, SquareAnnotation, StampAnnotation, StampName, TextAnnotation,
 };
@@ -62,12 +66,6 @@ const FORMS_LEVELS: [&str; 5] = [
 const NAV_LEVELS: [&str; 2] = ["no navigation", "outline, named destinations, page labels, open action, viewer preferences"];
 
 fn levels(thorough: bool) -> [usize; 6] {
-    if let Ok(v) = std::env::var("C20_DEBUG_LEVELS") {
-        let x: Vec<usize> = v.split(',').filter_map(|t| t.parse().ok()).collect();
-        if x.len() == 6 {
-            return [x[0], x[1], x[2], x[3], x[4], x[5]];
-        }
-    }
     // number of levels per feature in this tier; 0 for gfx/annots = tied to the images level
     // (quick: "page extras" = images + graphics resources + annotations, none/all as one feature)
     if thorough {
@@ -539,7 +537,7 @@ pub fn classify(a: &[u8], b: &[u8], l: &Locus) -> String {
                 match ap_permutation(&la, &lb, &moved) {
                     Some(ApPerm::States) => return "C20/widget-ap-state-streams-numbered-in-hash-order".into(),
                     Some(ApPerm::SubStates) => return "C20/widget-ap-substate-streams-numbered-in-hash-order".into(),
-                    None => return format!("C20/same-graph-different-numbering-first-diff-in-{}", l.class.replace(' ', "-")),
+                    None => return format!("C20/same-object-graph-different-numbering-or-order-first-diff-in-{}", l.class.replace(' ', "-")),
                 }
             }
         }
